@@ -594,6 +594,133 @@ def run_sel(env, cfg, case):
                                              "outcome:%s" % ("error" if c.errored else "value")]
 
 
+# ------------------------------------------------------------------------------ long operands
+# Internal tables, windows and recoding buffers are sized from constants (RLC_TABLE_SIZE, RLC_BN_BITS, ...) while
+# a bn object may hold up to RLC_BN_SIZE digits: exponents, dividends and gcd operands from just below the configured
+# precision up to the capacity of the object. The results are small, so: exact value or a reported error.
+
+LONG_OPS = ["bn_mxp", "bn_mxp_basic", "bn_mxp_slide", "bn_mxp_monty", "bn_mxp_sim", "bn_mod", "bn_mod_basic", "bn_div",
+            "bn_div_rem", "bn_gcd", "bn_gcd_basic", "bn_gcd_lehme", "bn_gcd_binar", "bn_gcd_ext_basic", "bn_gcd_ext_lehme",
+            "bn_gcd_ext_binar", "bn_srt", "bn_smb_jac", "bn_mod_inv", "bn_mod_dig", "bn_div_dig"]
+
+
+def strat_long(env, cfg):
+    I = info(env, cfg)
+    W, SIZE, DIGS = I["W"], I["SIZE"], I["DIGS"]
+    top = W * (SIZE - 1)
+
+    @st.composite
+    def s(draw):
+        op = draw(st.sampled_from(LONG_OPS))
+        bits = draw(st.one_of(st.sampled_from([W * DIGS - 1, W * DIGS, W * DIGS + 1, W * DIGS + W, top - W, top - 1, top]),
+                              st.integers(W * DIGS - 8, top)))
+        big = draw(ints.uniform(1 << (bits - 1), (1 << bits) - 1))
+        if draw(st.integers(0, 5)) == 0:
+            big = (1 << bits) - 1 - draw(st.integers(0, 3))
+        sbits = draw(st.sampled_from([1, 2, W - 1, W, W + 1, 2 * W, 3 * W, 128]))
+        small = draw(ints.uniform(1, (1 << sbits) - 1)) | 1
+        base = draw(st.one_of(st.sampled_from([0, 1, 2, 3]), ints.uniform(0, 1 << sbits)))
+        return dict(op=op, big=big, small=small, base=base, neg=draw(st.integers(0, 7)) == 0,
+                    unprot=draw(st.booleans()), poison=draw(st.integers(0, 255)))
+    return s()
+
+
+def run_long(env, cfg, case):
+    import math
+    I = info(env, cfg)
+    W = I["W"]
+    op, big, m, base = case["op"], case["big"], case["small"], case["base"]
+    if op not in env.runner(cfg).ops():
+        raise Unsupported()
+    p = Prog(poison=case["poison"], unprotected=case["unprot"])
+    what = "%s(%s, operand of %d bits)" % (op, "unprotected" if case["unprot"] else "protected", big.bit_length())
+    outs = []
+    want = None
+    if op.startswith("bn_mxp") and op != "bn_mxp_sim":
+        e = -big if case["neg"] else big
+        if m == 1:
+            m = 3
+        sc = p.bn(1)
+        p.call(op, sc, p.bn(base), p.bn(e), p.bn(m))
+        outs = [sc]
+        if e >= 0 or math.gcd(base, m) == 1:
+            want = [pow(base, e, m)]
+    elif op == "bn_mxp_sim":
+        if m == 1:
+            m = 3
+        sc = p.bn(1)
+        p.call(op, sc, p.bn(base), p.bn(big), p.bn(base + 2), p.bn(big >> 1), p.bn(m))
+        outs = [sc]
+        want = [pow(base, big, m) * pow(base + 2, big >> 1, m) % m]
+    elif op in ("bn_mod", "bn_mod_basic"):
+        sc = p.bn(1)
+        p.call(op, sc, p.bn(big), p.bn(m))
+        outs, want = [sc], [big % m]
+    elif op == "bn_div":
+        sc = p.bn(1)
+        p.call(op, sc, p.bn(big), p.bn(m))
+        outs, want = [sc], [big // m]
+    elif op == "bn_div_rem":
+        sc, sd = p.bn(1), p.bn(1)
+        p.call(op, sc, sd, p.bn(big), p.bn(m))
+        outs, want = [sc, sd], [big // m, big % m]
+    elif op in ("bn_mod_dig", "bn_div_dig"):
+        d = (m % (1 << W)) or 1
+        sc = p.bn(1)
+        if op == "bn_mod_dig":
+            p.call(op, p.bn(big), d)
+            want = None
+        else:
+            p.call(op, sc, p.bn(big), d)
+            outs, want = [sc], [big // d]
+    elif op in ("bn_gcd", "bn_gcd_basic", "bn_gcd_lehme", "bn_gcd_binar"):
+        other = (big >> 3) | 1 if case["neg"] else m
+        sc = p.bn(1)
+        p.call(op, sc, p.bn(big), p.bn(other))
+        outs, want = [sc], [math.gcd(big, other)]
+    elif op.startswith("bn_gcd_ext"):
+        other = (big >> 3) | 1 if case["neg"] else m
+        sc, sd, se = p.bn(1), p.bn(1), p.bn(1)
+        p.call(op, sc, sd, se, p.bn(big), p.bn(other))
+        outs = [sc, sd, se]
+        want = ("bezout", big, other)
+    elif op == "bn_srt":
+        sc = p.bn(1)
+        p.call(op, sc, p.bn(big))
+        outs, want = [sc], [math.isqrt(big)]
+    elif op == "bn_smb_jac":
+        p.call(op, p.bn(big), p.bn(m))
+    elif op == "bn_mod_inv":
+        if m == 1:
+            m = 3
+        sc = p.bn(1)
+        p.call(op, sc, p.bn(big), p.bn(m))
+        outs = [sc]
+        want = [pow(big, -1, m)] if math.gcd(big, m) == 1 else None
+    for o in outs:
+        p.dump(o)
+    idx = len(p.names) - 1
+    sp = probe(p)
+    res = env.runner(cfg).run(p, timeout=60)
+    if res.failed_new:
+        raise Unsupported()
+    c = res.calls[idx]
+    observe(c, what)
+    if not c.errored and want is not None:
+        got = [res.dumps[o].value for o in outs]
+        if isinstance(want, tuple):
+            g, d, e = got
+            if g != math.gcd(want[1], want[2]) or want[1] * d + want[2] * e != g:
+                raise Violation("%s: wrong gcd / cofactors for an operand beyond the configured precision" % what, got=got)
+        elif got != want:
+            raise Violation("%s: wrong value for an operand beyond the configured precision and no error reported" % what,
+                            got=got, want=want)
+    check_probe(res, sp, what)
+    beyond = big.bit_length() > W * I["DIGS"]
+    return beyond, ["op:" + op, "long:%s" % ("beyond-precision" if beyond else "within"),
+                    "outcome:%s" % ("error" if c.errored else "value")]
+
+
 # ------------------------------------------------------------------------------ allocation-fault enumeration
 
 WORKLOADS = [(0, w) for w in range(8)] + [(1, w) for w in range(6)] + [(2, w) for w in range(9)] + \
@@ -738,6 +865,7 @@ TARGETS = [
     Target("buffers", strat_buf, run_buf, _cfgs(), quick=30000, thorough=200000),
     Target("counts", strat_cnt, run_cnt, _cfgs(), quick=5000, thorough=30000),
     Target("selectors", strat_sel, run_sel, _cfgs(), quick=6000, thorough=30000),
+    Target("long-operands", strat_long, run_long, _cfgs(), quick=8000, thorough=60000),
     Target("alloc-faults", strat_fault, run_fault, {"quick": ["dyn"], "thorough": ["dyn"]}, quick=64, thorough=400,
            job_size={"quick": 4, "thorough": 12}),
 ]
